@@ -125,6 +125,35 @@ impl<const N: usize> Events<N> {
         self.inner.lock(|state| state.borrow().next_event_number)
     }
 
+    /// Verification hook: the events retained in the three buffers, in the order the
+    /// readers iterate them (critical, info, debug buffer; oldest first in each):
+    /// `(buffer: 2 critical / 1 info / 0 debug, event number, priority, encoded length)`.
+    #[cfg(rs_matter_verif)]
+    pub fn verif_dump(&self) -> std::vec::Vec<(u8, EventNumber, u8, usize)> {
+        self.inner.lock(|state| {
+            let state = state.borrow();
+            let mut out = std::vec::Vec::new();
+
+            for prio in [
+                EventPriority::Critical,
+                EventPriority::Info,
+                EventPriority::Debug,
+            ] {
+                let buf = state.buf(prio);
+                let mut off = 0;
+                while off < buf.head {
+                    let len = unwrap!(TLVSequence(&buf.data[off..buf.head]).container_len());
+                    let data =
+                        unwrap!(EventData::from_tlv(&TLVElement::new(&buf.data[off..off + len])));
+                    out.push((prio as u8, data.event_number, data.priority as u8, len));
+                    off += len;
+                }
+            }
+
+            out
+        })
+    }
+
     pub(crate) fn fetch<F, R>(&self, f: F) -> R
     where
         F: FnOnce(EventsIter<'_, N>) -> R,
